@@ -955,3 +955,17 @@ Theorem C20_normalisation_keeps_congruence_matrix : forall (ref t : ptensor R) (
   forall i j, (i < r)%nat -> (j < r)%nat -> mget Rops (cong_all Rops true r ms') i j = mget Rops (cong_all Rops true r ms) i j.
 Proof. exact normalisation_keeps_congruence_matrix. Qed.
 Print Assumptions C20_normalisation_keeps_congruence_matrix.
+
+(* non-vacuity of the `what a passing case means' theorems: executed comparisons that succeed *)
+Example C20_ex_agree_cases :
+  Corr.C20.agree_cong true [[[3]; [4]]]%Q [[[3]; [4]]]%Q [[5]]%Q [[5]]%Q (Ok (1%Q, [0]%nat)) = true /\
+  Corr.C20.agree_cong_dual true [[[3]; [4]]]%Q [[[3]; [4]]]%Q [[5]]%Q [[5]]%Q [0]%Q true (Ok (1%Q, [0]%nat)) = true /\
+  Corr.C20.agree_corridx (Some Stacked) 0%Q [[[3]; [4]]]%Q [[[4]; [3]]]%Q [[5]]%Q [[5]]%Q (Ok (1 # 25)%Q) = true.
+Proof. vm_compute. repeat split. Qed.
+
+(* non-vacuity of C20_normalisation_keeps_congruence_matrix: weight 2, factor (3, 4)^T (norm tape 5), cp_normalize's tape 10, the
+   normalised factor (0.6, 0.8)^T with tape 1 *)
+Example C20_ex_normalisation_hyps : forall k, (k < 1)%nat ->
+  mode_ok 1 (mode_at (pfs exr) (pfs exr) [[5]] [[5]] k) /\
+  mode_ok 1 (mode_at (compared Rops true exr) (compared Rops true exr) (pcong exr) (pcong exr) k).
+Proof. exact ex_hyps. Qed.
